@@ -242,3 +242,25 @@ def materialize(root, spec):
         os.utime(p, ns=(e['mt'], e['mt']))
         out[p] = (data, e['mt'])
     return out
+
+
+import io as _io
+
+
+class ShortReads(_io.BytesIO):
+    """A seekable stream whose read(n) may return fewer than n bytes before the end (as raw
+    streams, pipes and throttled wrappers legally do); b'' still means end of stream."""
+
+    def __init__(self, data, rng):
+        super().__init__(data)
+        self._rng = rng
+        self.short = 0
+
+    def read(self, n=-1):
+        left = len(self.getbuffer()) - self.tell()
+        if n is None or n < 0 or n <= 1 or left <= 1:
+            return super().read(n)
+        k = self._rng.randrange(1, min(n, left) + 1)
+        if k < min(n, left):
+            self.short += 1
+        return super().read(k)
